@@ -136,6 +136,12 @@ type pkgSpec struct {
 type genSpec struct {
 	Name  string `json:"name"`
 	Alias bool   `json:"alias,omitempty"`
+	// NewDefers: callbacks the generator registers with Context.Defer INSIDE GeneratorNewer.New(c) — once per processed
+	// package, before the first GenerateType — as a collect-then-emit generator does for its per-package summary; they never
+	// fail.  NewRender: New(c) also touches c's writer (renders an empty snippet).  Both are outside the Coq model (which
+	// does not describe how the instance is created): checked by the Go-side oracle newDeferViolations.
+	NewDefers []deferSpec `json:"new_defers,omitempty"`
+	NewRender bool        `json:"new_render,omitempty"`
 }
 
 const modPath = "example.com/m"
